@@ -5,6 +5,8 @@ src=$1; name=$2
 wt=/tmp/vs-$name
 git -C /repo worktree add -q --detach $wt HEAD || exit 2
 cd $wt
+# a HOME of its own: suites running side by side share ~/.dbus-keyrings otherwise
+mkdir -p /tmp/vs-home-$name; export HOME=/tmp/vs-home-$name
 res="ok"
 /venv/bin/python $src/demo.py >/dev/null 2>&1 && d0=pass || d0=fail
 git apply $src/patch.diff 2>/dev/null || git apply -3 $src/patch.diff 2>/dev/null || res="noapply"
@@ -12,7 +14,7 @@ if [ $res = ok ]; then
   suite=$(/venv/bin/python -m pytest -q -p no:cacheprovider --timeout=900 2>&1 | tail -1)
   /venv/bin/python $src/demo.py >/dev/null 2>&1 && d1=pass || d1=fail
 else suite="-"; d1="-"; fi
-cd /; git -C /repo worktree remove --force $wt
+cd /; git -C /repo worktree remove --force $wt; rm -rf /tmp/vs-home-$name
 echo "$name: apply=$res demo_without=$d0 demo_with=$d1 suite='$suite'"
 case "$suite" in *"164 passed"*) ;; *) res=bad;; esac
 [ "$res" = ok ] && [ "$d0" = pass ] && [ "$d1" = fail ]
